@@ -311,12 +311,16 @@ def ensure_harness(variant, san=None):
     flags = ["-O1", "-g", "-fno-omit-frame-pointer"]
     if san == "asan":
         flags += ["-fsanitize=address,undefined", "-fno-sanitize-recover=all"]
+    cc = "gcc"
+    if san == "msan":
+        cc = "clang"
+        flags += ["-fsanitize=memory", "-fsanitize-memory-track-origins", "-fno-sanitize-recover=all"]
     if san == "tsan":
         flags += ["-fsanitize=thread", "-DHARNESS_MT", "-pthread"]
     if san == "mt":
         flags += ["-DHARNESS_MT", "-pthread"]
     link = [] if "-DRDSPARSER_DISABLE_HEAP" in defs else ["-Wl,--wrap=malloc"]
-    rc, o, e = sh(["gcc"] + flags + defs + INC + [src] + lib_c_files() + link + ["-o", binp], timeout=600)
+    rc, o, e = sh([cc] + flags + defs + INC + [src] + lib_c_files() + link + ["-o", binp], timeout=600)
     if rc != 0:
         raise BuildError("compile-harness-" + name, e[-4000:])
     with open(stamp, "w") as f:
@@ -354,6 +358,7 @@ def run_shard(args):
     env = dict(os.environ)
     env["ASAN_OPTIONS"] = "detect_leaks=1:abort_on_error=0:exitcode=99"
     env["UBSAN_OPTIONS"] = "print_stacktrace=1:halt_on_error=1:exitcode=99"
+    env["MSAN_OPTIONS"] = "exitcode=98"
     if env_extra:
         env.update(env_extra)
     with open(trace, "w") as tf:
